@@ -344,6 +344,18 @@ def pick_indices(rng, N, force_nontrivial=True):
     return list(reversed(range(N)))
 
 
+def vary_indices(ctx, idx):
+    """the same selection as list / tuple / ndarray (users pass all three)"""
+    v = ctx.evals % 3
+    if v == 1:
+        ctx.count("repr_indices_tuple")
+        return tuple(idx)
+    if v == 2:
+        ctx.count("repr_indices_ndarray")
+        return np.array(idx)
+    return list(idx)
+
+
 def idx_classes(ctx, idx, N):
     if idx != sorted(idx):
         ctx.count("indices_not_sorted")
